@@ -781,9 +781,10 @@ Section Upload.
     : St * outcome uresult :=
     (* self._cache = {...}: the caches start empty on every call *)
     let u := set_udts [] (set_structs [] u) in
+    (* scopes None and "*": info['programs'|'tasks'] and self._data_types start empty too *)
     let u := match program with
              | ArgProgram _ => u
-             | _ => set_tasks [] (set_programs [] u)
+             | _ => set_data_types [] (set_tasks [] (set_programs [] u))
              end in
     let '(s', u', o) :=
       match program with
